@@ -19,6 +19,8 @@ import CffVerif.Text.GenName
 import CffVerif.Text.Order
 import CffVerif.Gen.BodyThms
 import CffVerif.Gen.Topo
+import CffVerif.Gen.Cycle
+import CffVerif.Gen.Accept
 import CffVerif.Gen.Denote
 import CffVerif.Gen.Parallel
 import CffVerif.Text.Hoist
@@ -665,6 +667,50 @@ theorem C10_slice_jobs (base : Nat) (c : Coll) :
 theorem C10_map_end (base : Nat) (c : Coll) (h : c.hasEnd = true) :
     (mapJobs base c)[collN c]? = some { body := .mapEnd c.id, deps := (List.range (collN c)).map (base + ·) } :=
   mapJobs_end_deps base c h
+
+/-! ## Validation (C14) -/
+
+/-- **C14 soundness of acceptance (checked conditions).** A flow the validation accepts has: no
+    duplicate in Params; a task is output-less iff it carries Invoke(true); FallbackWith only on
+    error-returning tasks; constant Invoke arguments; an emitter if anything is instrumented; no
+    type provided by two functions or twice by one; every task/predicate output consumed (by
+    Results, another function, or it is an Invoke sentinel); and no cycle found by the search. -/
+theorem C14_accept_facts (p : Prog) (h : validateFlow p = []) : AcceptFacts p := accept_facts p h
+
+/-- **C14 cycles.** Every accepted flow is acyclic (through tasks and predicates): the memoised
+    depth-first search of internal/cycle.go is sound. -/
+theorem C14_accept_acyclic (p : Prog) (h : validateFlow p = []) : Acyclic p := accept_acyclic p h
+
+/-- **C14 ⇒ C02.** For every accepted flow the generated code enqueues every function exactly once
+    and after everything it depends on. -/
+theorem C14_accept_jobs_ordered (p : Prog) (h : validateFlow p = []) :
+    (∀ (pos : Nat) (j : Job), (genJobs p)[pos]? = some j → ∀ d ∈ j.deps, d < pos) ∧
+    (genJobs p).length = (funcs p).length := accept_jobs_ordered p h
+
+/-- **C14 Parallel.** A Parallel directive is accepted only if every Slice/Map has element (key,
+    value) types assignable to its function's parameters; an unassignable one is rejected. -/
+theorem C14_parallel (p : Prog) :
+    (validatePar p = [] → ∀ c ∈ p.slices ++ p.maps, c.assignable = true) ∧
+    (∀ c ∈ p.slices ++ p.maps, c.assignable = false → validatePar p ≠ []) :=
+  ⟨fun h => (accept_par_facts p h).1, fun c hc hn => reject_unassignable p c hc hn⟩
+
+/-- Non-vacuity: a well-formed diamond with a predicate is accepted, its single-defect mutations
+    (missing provider, duplicate provider, cycle through the predicate, unused param, unused
+    output, stripped Invoke) are rejected with the expected class. -/
+example :
+    let t0 : Task := { k := 0, ins := [1], outs := [2] }
+    let t1 : Task := { k := 1, ins := [1], outs := [3], pred := true, pins := [2] }
+    let t2 : Task := { k := 2, ins := [2, 3], outs := [4] }
+    let t3 : Task := { k := 3, ins := [4], outs := [], invoke := true }
+    let ok : Prog := { params := [1], results := [4], tasks := [t2, t0, t3, t1] }
+    validate ok = [] ∧
+    validate { ok with tasks := [t2, t3, t1] } = ["no-provider"] ∧
+    validate { ok with tasks := [t2, t0, t3, t1, { k := 4, ins := [1], outs := [3] }] } = ["dup-provider"] ∧
+    validate { ok with tasks := [t2, t3, t1, { t0 with ins := [3] }] } = ["cycle"] ∧
+    validate { ok with params := [1, 9] } = ["unused-param"] ∧
+    validate { ok with tasks := [t2, t0, t3, t1, { k := 4, ins := [1], outs := [8] }] } = ["unused-output"] ∧
+    validate { ok with tasks := [t2, t0, { t3 with invoke := false }, t1] } = ["invoke"] := by
+  decide
 
 end Gen
 
